@@ -400,9 +400,11 @@ def classify(ast, env, got, Empty, where):
     observation, otherwise a key made of the constructs involved and the kind of disagreement."""
     for mode in (('ifs',), ('iferror',), ('ifs', 'iferror')):
         o = ev(ast, env, eager=mode)
-        if o[0] != 'unspec' and agree(got, o, Empty):
+        # the lazy reference is specified here, so an unspecified / wild outcome of the eager model can only come from a
+        # sub-expression that the statement says is not evaluated at all: the eager defect explains the observation
+        if o[0] in ('unspec', 'wild') or agree(got, o, Empty):
             if mode == ('ifs',):
-                return 'C13.ifs.eager_args_raise' if (isinstance(got, codec.Raised) and o[0] != 'wild') else 'C13.ifs.eager_error_scan'
+                return 'C13.ifs.eager_args_raise' if isinstance(got, codec.Raised) and o[0] != 'wild' else 'C13.ifs.eager_error_scan'
             if mode == ('iferror',):
                 return 'C13.iferror.eager_fallback'
             return 'C13.ifs+iferror.eager'
@@ -1442,7 +1444,7 @@ def run(tier='quick', seed=0):
         # every ninth chain (rotating with the seed), the fail mode rotating with the chain index
         d3 = [d3all[4 * i + (i + seed) % 4] for i in range(len(d3all) // 4) if (i + seed) % 9 == 0]
     chain_sets = {1: dedupe(d1), 2: dedupe(d2), 3: dedupe(d3)}
-    rnd = dedupe(gen_random_formulas(rng, 600 if thorough else 50))
+    rnd = dedupe(gen_random_formulas(rng, 500 if thorough else 50))
     nest_assigns = truth_assignments(rng, 3 if thorough else 1)
     # ---- jobs for one pool
     jobs = []
